@@ -26,20 +26,20 @@ type Disagreement struct {
 
 // Report is what a `wv <ID>` run hands back to the check script.
 type Report struct {
-	Property      string            `json:"property"`
-	Tier          string            `json:"tier"`
-	Seed          uint64            `json:"seed"`
-	Evaluations   int64             `json:"evaluations"`
-	Nontrivial    int64             `json:"distinct_nontrivial"`
-	Rule          string            `json:"rule"`
-	ModelLines    int64             `json:"traces_validated_against_impl"`
-	Exhaustive    bool              `json:"exhaustive"`
-	Samples       []interface{}     `json:"samples"`
-	Distribution  map[string]int64  `json:"distribution"`
-	Violations    []Violation       `json:"violations"`
-	Disagreements []Disagreement    `json:"disagreements"`
-	Notes         []string          `json:"notes"`
-	WallS         float64           `json:"wall_s"`
+	Property      string                 `json:"property"`
+	Tier          string                 `json:"tier"`
+	Seed          uint64                 `json:"seed"`
+	Evaluations   int64                  `json:"evaluations"`
+	Nontrivial    int64                  `json:"distinct_nontrivial"`
+	Rule          string                 `json:"rule"`
+	ModelLines    int64                  `json:"traces_validated_against_impl"`
+	Exhaustive    bool                   `json:"exhaustive"`
+	Samples       []interface{}          `json:"samples"`
+	Distribution  map[string]int64       `json:"distribution"`
+	Violations    []Violation            `json:"violations"`
+	Disagreements []Disagreement         `json:"disagreements"`
+	Notes         []string               `json:"notes"`
+	WallS         float64                `json:"wall_s"`
 	Extra         map[string]interface{} `json:"extra,omitempty"`
 
 	mu       sync.Mutex
